@@ -97,6 +97,12 @@ class R1Obs(Observer):
 
 
 MUTANTS = [
+    ("pickling hook that clears the aliased cache", "AegeanTools/regions.py",
+     "    @classmethod\n    def load(cls, mimfile):",
+     "    def __getstate__(self):\n"
+     "        state = self.__dict__.copy()\n"
+     "        state['demoted'].clear()\n        return state\n\n"
+     "    @classmethod\n    def load(cls, mimfile):", "C08-R15"),
     ("polygon queried at maxdepth, stored at depth", "AegeanTools/regions.py",
      "        pix = hp.query_polygon(2**depth,", "        pix = hp.query_polygon(2**self.maxdepth,",
      "C08-R14"),
@@ -260,6 +266,10 @@ def run(ctx):
     # shape builders query at 2**depth (shared with C09-R1)
     from .c09 import query_rule
     query_rule(ctx, ctx.prog, ci, "C08-R14")
+    # save and reload is a plain pickle of the object: no hook that could
+    # drop or (through the cache alias) empty a field (shared with C12-R5)
+    from .c12 import pickle_rule
+    pickle_rule(ctx, ci, "C08-R15")
     r11_add(ctx, ci)
     from .. import precision
     precision.rule(
